@@ -208,7 +208,7 @@ pub mod instructions {
                 mint: seed_path("owner_mint"),
             })
         )]
-        pub owner_ata: Mut<AccountInfo>,
+        pub owner_ata: AccountInfo,
         pub owner_mint: AccountInfo,
         pub wallet: Mut<Signer>,
         pub token_program: Program<Token>,
